@@ -125,6 +125,14 @@ func (x *Exec) frameSweep() {
 									}
 								}
 							}
+							// a spec error is built once, by the lexer or the parser, and reported as built: nobody edits its fields afterwards
+							if nt, ok := pt.Elem().(*types.Named); ok && nt.Obj().Name() == "ParseError" && nt.Obj().Pkg() != nil && strings.HasSuffix(nt.Obj().Pkg().Path(), "/lexer") {
+								if stt, ok := nt.Underlying().(*types.Struct); ok {
+									if _, fresh := rootOf(in.Addr).(*ssa.Alloc); !fresh {
+										specw = append(specw, "ParseError."+stt.Field(fa.Field).Name()+" at "+x.posStr(in.Pos()))
+									}
+								}
+							}
 						}
 					}
 					// a store through the pointer held in Container.ValueSetByUser
